@@ -19,7 +19,7 @@ from mc.kernel import exc_sig
 
 PROPERTY = "C10"
 RULE = "unit = one system; paths = fit_adaptive calls per (target set, neutral point, objective, weights, deltas, solver); non-trivial = sets with at least one out-of-gamut target (scales != 1 needed); distinct by all of these"
-ASSUMPTIONS = ["optimality asserted one-sidedly against a feasible point of the EXACT (delta = 0) scale polygon", "tolerances: constraints delta + 2e-3 x scale; scales 5e-3"]
+ASSUMPTIONS = ["scales are required to be non-negative (an optimal pair may have a zero component; strict positivity is not implied by the optimisation)", "optimality asserted one-sidedly against a feasible point of the EXACT (delta = 0) scale polygon", "tolerances: constraints delta + 2e-3 x scale; scales 5e-3"]
 BOUNDS = {"quick": "shapes 2x2 2x3 3x3 3x4 4x4 x 2 matrices x (bounds, K, baseline) <= 1 deviation; 4 target sets; 2 neutral points; 2 objectives; 2 weightings; delta menu on one set", "thorough": "plus 3x5 4x5 4x6, 50-sample sets, 2 deviations"}
 CAP_S = {"quick": 600, "thorough": 7200}
 TECHNIQUE = "all systems x target sets x options of the menu; constraints checked directly on the returned values, optimal scales against the exact feasible polygon in scale space built from the zonotope facets"
@@ -178,8 +178,10 @@ def run_unit(unit, rec):
                     bad = ("a", "malformed result")
                 elif np.any(X < lo - 0.01 * rng_ - 1e-9) or np.any(X > hi + 0.01 * rng_ + 1e-9):
                     bad = ("b", "returned intensities violate the bounds")
-                elif np.any(sc <= 0):
-                    bad = ("c", "a scale is not positive")
+                elif np.any(sc < -1e-9):
+                    # (the optimum of the documented objective may lie ON the boundary scale = 0, e.g. 'max' trading all
+                    #  chroma for intensity: "positive" is decided as non-negative, which is what the formulation guarantees)
+                    bad = ("c", "a scale is negative")
                 elif np.max(np.abs(Bp - pred)) > 1e-9 * (1 + ext):
                     bad = ("b", "returned prediction is not the model's capture of the returned intensities")
                 elif np.max(np.abs(pred.sum(1) - sc[0] * Bsum)) > d1 + (2e-6 if solver == "clarabel" else 2e-3) * scale_c:
